@@ -45,8 +45,10 @@ def mutations(plan, rng):
             else:
                 out.append(("unsafe_impl_of_safe_trait", bi, mut(unsafe=True)))
             out.append(("inherent_block_in_trait_mode", bi, mut(inherent=True)))
+            out.append(("inherent_block_in_trait_mode", (bi, "no-bounds"), mut(inherent=True, no_bounds=True)))
         else:
             out.append(("trait_block_in_inherent_mode", bi, mut(as_trait="Kita")))
+            out.append(("trait_block_in_inherent_mode", (bi, "no-bounds"), mut(as_trait="Kita", no_bounds=True)))
             fi, mi, m = plan.blocks()[bi]
             if len(plan.families[fi].members) > 1:
                 for k, name, d in plan.items:
@@ -163,7 +165,9 @@ def run(tier, seed, replay=None):
             if p_nested(b):
                 # prefer sites in the most specific headers
                 ms.sort(key=lambda x: -header_depth(b, x[1]))
-            ms = ms[:10]
+            # directed: blocks of the wrong kind without dispatch bounds come first
+            nb_ = [x for x in ms if isinstance(x[1], tuple) and x[1][1] == "no-bounds"]
+            ms = nb_[:2] + [x for x in ms if x not in nb_][:8]
         cases += ms
     progs = [(f"c{i}", program(p, d is not None and p.mode == "trait")) for i, (d, site, p) in enumerate(cases)]
     res = C.run_programs(so, progs, mode="check")
